@@ -15,6 +15,7 @@ import (
 	"runtime"
 	"sort"
 	"strings"
+	"sync"
 	"testing"
 	"time"
 
@@ -749,6 +750,7 @@ func c07partA(e *schedx.Explorer) {
 
 type c07bdata struct {
 	in    *c07inst
+	mu    sync.Mutex // harness-side records: two store threads may return concurrently if the code under test lets them
 	errs  map[string]error
 	done  map[string]bool
 	duty  core.Duty
@@ -800,7 +802,9 @@ func c07scenario(name string, t int, pre []c07call, threads map[string]c07call, 
 				} else {
 					err = d.in.db.StoreExternal(x.Ctx, c.duty(), c.set())
 				}
+				d.mu.Lock()
 				d.errs[nm], d.done[nm] = err, true
+				d.mu.Unlock()
 				x.Obs("%s=%v", nm, err != nil)
 			})
 		}
